@@ -423,8 +423,11 @@ HIST_QUICK = {"maxlen": 3, "sample": 60, "limit": 3, "configs": [[True, "default
 HIST_THOROUGH = {"maxlen": 3, "sample": 600, "limit": 3, "configs": [[True, "default"], [False, "default"], [True, "passthrough"]]}
 
 
-def history_standin(root, tier, seed=0, configs=None):
+def history_standin(root, tier, seed=None, configs=None):
     from pyvc import driver
+    import os
+    if seed is None:
+        seed = int(os.environ.get("VERIF_SEED", "0") or 0)      # the sampled histories of length 3
     job = dict(HIST_THOROUGH if tier == "thorough" else HIST_QUICK, cmd="search", root=root, seed=seed)
     if configs:
         job["configs"] = configs
@@ -926,7 +929,9 @@ class C18(Spec):
 
     def standins(self, root, tier):
         from pyvc import driver
-        r = driver.rt_call("pyvc.rt_hist", {"cmd": "interleave", "root": root, "schedules": 200 if tier == "thorough" else 40}, root, timeout=3000)
+        import os
+        r = driver.rt_call("pyvc.rt_hist", {"cmd": "interleave", "root": root, "schedules": 200 if tier == "thorough" else 40,
+                                            "seed": int(os.environ.get("VERIF_SEED", "0") or 0)}, root, timeout=3000)
         return [{"name": "interleavings", "scope": "two validators with own resolvers, same base URI, same $ref strings designating different definitions, same instance object; %d random next()-schedules per case, drafts 4 and 7" % (200 if tier == "thorough" else 40),
                  "cases": r["tried"], "failures": r["failures"], "replay_kind": "hist", "label": "bounded (not counted as proof)"}]
 
